@@ -224,8 +224,17 @@ def panelVerdicts (f : Feat) (props : List String) (p : Panel) (sc : Scenario) (
           let res := lutResident p after
           let bad := ref.filter fun r => !res.contains r
           let mname := match lutMode with | .full => "full" | .quick => "quick"
-          acc := acc.add "C17" (if bad.isEmpty then [] else
-            [s!"site={site} reason=resident-tables-differ got={showRegs ((res.filter fun r => !ref.contains r).map fun (c, b) => (c, b.take 4))} want={mname}:{showRegs (bad.map fun (c, b) => (c, b.take 4))}"])
+          -- the property speaks of UPLOADS: the call itself must send the tables (a controller that
+          -- happens to hold them from before a reset does not count)
+          let sent : List (UInt8 × Bytes) := (opBlocks t.evs).filterMap fun b => match b with
+            | .c c ps => if (lutCmds p.family).contains c then some (c, ps) else none
+            | _ => none
+          let lastSent (c : UInt8) : Option Bytes := ((sent.filter (·.1 == c)).getLast?).map (·.2)
+          let notSent := ref.filter fun r => lastSent r.1 != some r.2
+          acc := acc.add "C17" ((if bad.isEmpty then [] else
+            [s!"site={site} reason=resident-tables-differ got={showRegs ((res.filter fun r => !ref.contains r).map fun (c, b) => (c, b.take 4))} want={mname}:{showRegs (bad.map fun (c, b) => (c, b.take 4))}"]) ++
+            (if notSent.isEmpty ∨ !bad.isEmpty then [] else
+            [s!"site={site} reason=not-uploaded-by-this-call got={showRegs (sent.map fun (c, b) => (c, b.take 4))} want={mname}:{showRegs (notSent.map fun (c, b) => (c, b.take 4))}"]))
     -- C05
     if want "C05" then
       mon := { mon with fails := [] }
